@@ -181,6 +181,10 @@ def make_client(env, kind, cfg):
     if cfg.get("keepalive"):
         from pymemcache.client.base import KeepaliveOpts
         kw["socket_keepalive"] = KeepaliveOpts(*cfg["keepalive"])
+    if cfg.get("client_class"):
+        from vlib import subclasses
+        kw["client_class"] = subclasses.CLIENT_CLASSES[cfg["client_class"]]
+        kw["client_class_how"] = cfg.get("client_class_how", "assign")
     if kind in ("pooled", "hash-pooled"):
         if "max_pool_size" in cfg:
             kw["max_pool_size"] = cfg["max_pool_size"]
@@ -242,7 +246,10 @@ def interpret(case, observer=None):
         env.net.latency = case["latency"]
         env.net.clock = env.clock
     for srv in env.servers:
-        preload(srv, cfg.get("key_prefix", b"") if isinstance(cfg.get("key_prefix", b""), bytes) else cfg["key_prefix"].encode())
+        pfx = cfg.get("key_prefix", b"") if isinstance(cfg.get("key_prefix", b""), bytes) else cfg["key_prefix"].encode()
+        preload(srv, pfx)
+        if cfg.get("client_class") == "namespace":
+            preload(srv, pfx + b"ns.")          # the items as that subclass spells their keys
     run = Run()
     run.env = env
     plan = []
